@@ -3,27 +3,27 @@
 Require Import Bytes.
 Open Scope N_scope.
 
-Definition inr (lo hi b : N) : bool := (lo <=? b) && (b <=? hi).
-Definition cont := inr 128 191.
+Definition in_rng (lo hi b : N) : bool := (lo <=? b) && (b <=? hi).
+Definition cont := in_rng 128 191.
 
 Fixpoint valid_utf8 (l : list byte) : bool :=
   match l with
   | [] => true
   | b0 :: r =>
     if b0 <=? 127 then valid_utf8 r
-    else if inr 194 223 b0 then
+    else if in_rng 194 223 b0 then
       match r with b1 :: r1 => cont b1 && valid_utf8 r1 | _ => false end
     else if b0 =? 224 then
-      match r with b1 :: b2 :: r2 => inr 160 191 b1 && cont b2 && valid_utf8 r2 | _ => false end
-    else if inr 225 236 b0 || inr 238 239 b0 then
+      match r with b1 :: b2 :: r2 => in_rng 160 191 b1 && cont b2 && valid_utf8 r2 | _ => false end
+    else if in_rng 225 236 b0 || in_rng 238 239 b0 then
       match r with b1 :: b2 :: r2 => cont b1 && cont b2 && valid_utf8 r2 | _ => false end
     else if b0 =? 237 then
-      match r with b1 :: b2 :: r2 => inr 128 159 b1 && cont b2 && valid_utf8 r2 | _ => false end
+      match r with b1 :: b2 :: r2 => in_rng 128 159 b1 && cont b2 && valid_utf8 r2 | _ => false end
     else if b0 =? 240 then
-      match r with b1 :: b2 :: b3 :: r3 => inr 144 191 b1 && cont b2 && cont b3 && valid_utf8 r3 | _ => false end
-    else if inr 241 243 b0 then
+      match r with b1 :: b2 :: b3 :: r3 => in_rng 144 191 b1 && cont b2 && cont b3 && valid_utf8 r3 | _ => false end
+    else if in_rng 241 243 b0 then
       match r with b1 :: b2 :: b3 :: r3 => cont b1 && cont b2 && cont b3 && valid_utf8 r3 | _ => false end
     else if b0 =? 244 then
-      match r with b1 :: b2 :: b3 :: r3 => inr 128 143 b1 && cont b2 && cont b3 && valid_utf8 r3 | _ => false end
+      match r with b1 :: b2 :: b3 :: r3 => in_rng 128 143 b1 && cont b2 && cont b3 && valid_utf8 r3 | _ => false end
     else false
   end.
